@@ -300,7 +300,7 @@ func init() {
 			"the xpath engine (antchfx/xpath v1.1.11) is shared; the reference is its straightforward DOM binding (ref/dom.go, modelled on antchfx/xmlquery's navigator, whose context node is the navigator root), built from encoding/xml raw tokens",
 			"documents bind every namespace URI to one prefix (the two-prefix deviation is C08's known finding)",
 		},
-		BudgetQuick: 100, BudgetThorough: 1500,
+		BudgetQuick: 250, BudgetThorough: 1500,
 		Run: func(c *core.Ctx) {
 			exprStrs := c11Exprs(c.Quick())
 			var exprs []*xpath.Expr
